@@ -37,6 +37,16 @@ CHECKS["C02"] = ("kv", "exploration",
     "generated when the corresponding known finding is not listed as known. Checkpoint restore as a history variant is covered under C12.",
     "DESIGN.md 4/C02")
 
+CHECKS["C03"] = ("kv", "exploration",
+    "model-based stateful property testing (rapid state machine) against a reference ordered map",
+    "Random action histories over a tree on a real node database (both backends, generated cache strata, write log on/off) and a stack of up to 3 "
+    "overlays: insert, remove, remove-existing, get, iterator seek/next with interleaved reads, overlay push/commit/copy/discard, tree commit, close and "
+    "reopen with another capacity. Every result and, after every action, a full scan plus a get of every universe key on every layer are compared with a "
+    "reference map; each committed root is compared with the independent reference root.",
+    "No writes while an iterator of the same object is open; only the top overlay is written; non-nil values; single-threaded. The two node-cache known "
+    "findings (tiny capacities) are excluded by construction and re-checked by deterministic probes.",
+    "DESIGN.md 4/C03")
+
 NOT_APPLICABLE = {
 }
 
